@@ -210,6 +210,8 @@ def parse_trace(path):
     return res
 
 HUNG = -999
+import threading
+CONSUME_LOCK = threading.Lock()
 HARNESS_AS_LIMIT = 6 << 30      # bytes of address space per harness process
 class _Done:
     def __init__(self, rc, out): self.returncode, self.stdout = rc, out
@@ -264,10 +266,12 @@ def parse_spec(path):
         res.setdefault(toks[0], []).append(d)
     return res
 
-def run_batches(cases, model_exe, routing, bindirs, workdir, tag):
+def run_batches(cases, model_exe, routing, bindirs, workdir, tag, consume=None):
     """cases: list of (case_id, cfg, steps). Writes case files grouped by (binary,
     profile, shard), runs model and harness on each, returns (model, impl) traces and
-    the set of case ids that were lost (process crashed before writing a trace)."""
+    the set of case ids that were lost (process crashed before writing a trace).
+    With [consume], every shard's traces are handed to consume(model, impl, spec) as soon as the shard has run
+    and are then forgotten (the whole run never sits in memory); (None, None, crashed) is returned."""
     os.makedirs(workdir, exist_ok=True)
     from . import gen
     groups = {}
@@ -338,6 +342,10 @@ def run_batches(cases, model_exe, routing, bindirs, workdir, tag):
         exe = os.path.join(bindirs[prof], b)
         lines = [l for l in open(base + ".case").read().split("\n") if l]
         traces, died = run_impl(exe, lines, base)
+        if consume is not None and r1.returncode == 0:
+            with CONSUME_LOCK:
+                consume(parse_trace(base + ".model"), traces, parse_spec(base + ".spec"))
+            traces = None
         return (job, r1.returncode, r1.stdout, traces, died)
     model, impl, crashed = {}, {}, []
     with ThreadPoolExecutor(max_workers=NPROC) as ex:
@@ -345,11 +353,14 @@ def run_batches(cases, model_exe, routing, bindirs, workdir, tag):
             b, prof, base = job
             if rc1 != 0:
                 raise ToolBroken("model run failed on %s:\n%s" % (base, o1[-2000:]))
-            model.update(parse_trace(base + ".model"))
-            SPEC.update(parse_spec(base + ".spec"))
             for d in died:
                 crashed.append((base,) + d)
-            impl.update(traces)
+            if consume is None:
+                model.update(parse_trace(base + ".model"))
+                SPEC.update(parse_spec(base + ".spec"))
+                impl.update(traces)
+    if consume is not None:
+        return None, None, crashed
     return model, impl, crashed
 
 def run_single(case_line, exe, workdir, name):
